@@ -101,8 +101,12 @@ def par_3(ctx, rep):
                       'in parse is reachable only through the true edge of an is_final test')
     is_final = lambda e: isinstance(e, ast.Attribute) and e.attr == 'is_final'
     sites = 0
-    for qual in ('BaseParser._add_token', 'BaseParser.parse'):
-        f = ctx.prog.func(BASE, qual)
+    engine = [ctx.prog.func(BASE, q) for q in ('BaseParser._add_token', 'BaseParser.parse')]
+    # private helpers only the engine calls (its reduce loop split off into a method) are part of the engine
+    parts = sorted(ctx.parts_of([g.key for g in engine]))
+    engine_quals = {g.qual for g in engine} | {k[1] for k in parts if k[0] == BASE}
+    for f in engine + [ctx.prog.funcs[k] for k in parts if k[0] == BASE and ctx.prog.funcs[k].qual != 'BaseParser._pop']:
+        qual = f.qual
         cfg = ctx.cfg(f)
         for n in cfg.nodes:
             for c in calls_in(n, lambda c: is_method_call(c, '_pop') or
@@ -117,7 +121,7 @@ def par_3(ctx, rep):
         if f.mod.rel not in (BASE, PY):
             continue
         for n in walk_own(f.node):
-            if isinstance(n, ast.Call) and is_method_call(n, '_pop') and f.qual not in ('BaseParser._add_token', 'BaseParser.parse'):
+            if isinstance(n, ast.Call) and is_method_call(n, '_pop') and f.qual not in engine_quals:
                 rep.ob('PAR-3', f.mod.rel, f.qual, norm(n), False, '_pop called outside the table engine')
 
 
@@ -657,6 +661,12 @@ def par_1(ctx, rep):
     leaf_nodes = nodes_calling(cfg, lambda c: is_method_call(c, 'convert_leaf'))
     appends = [n for n in cfg.nodes if n.kind == 'stmt' and calls_in(n, lambda c: is_method_call(c, 'append') and norm(c.func.value).endswith('.nodes'))]
     recov = nodes_calling(cfg, lambda c: is_method_call(c, 'error_recovery'))
+    if not recov:
+        for k in sorted(ctx.parts_of([f.key])):
+            h = prog.funcs[k]
+            if any(isinstance(c, ast.Call) and is_method_call(c, 'error_recovery') for c in walk_own(h.node)):
+                raise AnalysisError('PAR-1: the call of error_recovery moved from _add_token into its helper %s; the '
+                                    'consume-exactly-once argument across that call is not modelled' % h.qual)
     ok = len(leaf_nodes) == 1 and len(appends) == 1 and len(recov) == 1
     rep.ob('PAR-1', BASE, f.qual, 'one convert_leaf, one append to .nodes, one error_recovery call', ok,
            'found %d convert_leaf, %d appends, %d error_recovery calls' % (len(leaf_nodes), len(appends), len(recov)))
